@@ -25,7 +25,7 @@ Definition val_text (v : val) : option bytes :=
 
 Definition is_present (v : val) : bool :=
   match v with
-  | VNil | VNode JNull => false
+  | VNil | VNode JNull | VNode JAbsent => false
   | _ => true
   end.
 
@@ -163,17 +163,20 @@ Definition unsupported (o : observed) : bool :=
 Definition icase := (list obj * list (job * observed))%type.
 
 (* 0 = agree, 1 = disagree, 2 = outside the model *)
-Fixpoint run_jobs (c : ctx) (l : list (job * observed)) : nat :=
+(* every job works on fresh copies of the objects (destinations alias context
+   buffers, so results of an earlier decode must be consumed before the context
+   is reused); the context itself is carried from job to job *)
+Fixpoint run_jobs (objs : list obj) (c : ctx) (l : list (job * observed)) : nat :=
   match l with
   | [] => 0
   | (j, exp) :: r =>
-      let '(c', got) := run_job c j in
+      let '(c', got) := run_job (w_store c objs) j in
       if unsupported got then 2
-      else if obs_eqb got exp then run_jobs c' r else 1
+      else if obs_eqb got exp then run_jobs objs c' r else 1
   end.
 
 Definition case_status (cs : icase) : nat :=
-  let '(objs, jobs) := cs in run_jobs (new_ctx objs) jobs.
+  let '(objs, jobs) := cs in run_jobs objs (new_ctx objs) jobs.
 
 Fixpoint mismatches_from (i : nat) (cs : list icase) : list nat :=
   match cs with
@@ -197,9 +200,9 @@ Fixpoint skipped_from (i : nat) (cs : list icase) : list nat :=
 Definition skipped := skipped_from 0.
 
 (* what the model computes for a case, for replay files and debugging *)
-Fixpoint model_obs (c : ctx) (l : list (job * observed)) : list observed :=
+Fixpoint model_obs (objs : list obj) (c : ctx) (l : list (job * observed)) : list observed :=
   match l with
   | [] => []
-  | (j, _) :: r => let '(c', got) := run_job c j in got :: model_obs c' r
+  | (j, _) :: r => let '(c', got) := run_job (w_store c objs) j in got :: model_obs objs c' r
   end.
-Definition model_of (cs : icase) : list observed := let '(objs, jobs) := cs in model_obs (new_ctx objs) jobs.
+Definition model_of (cs : icase) : list observed := let '(objs, jobs) := cs in model_obs objs (new_ctx objs) jobs.
